@@ -133,8 +133,12 @@ def update_forms(ctx, d1):
         before = p.events[:li]
         inside = [e for e in p.events[li:] if e.depth >= 1]
         lp0 = loop_ev[0].stmt
-        ext = src(lp0.iter.args[0]) if isinstance(lp0.iter, ast.Call) and src(lp0.iter.func) == 'zip' and len(lp0.iter.args) == 2 \
-            and isinstance(lp0.iter.args[0], ast.Name) else None
+        # zip(extents, self._stoichiometry) in either order: the extents are the argument that is a local
+        ext = None
+        if isinstance(lp0.iter, ast.Call) and src(lp0.iter.func) == 'zip' and len(lp0.iter.args) == 2:
+            locs_ = [a_ for a_ in lp0.iter.args if isinstance(a_, ast.Name)]
+            if len(locs_) == 1:
+                ext = locs_[0].id
         reacted = [e for e in before if e.kind == 'assign' and e.target == ext]
         okk = bool(reacted)
         why = ''
@@ -153,7 +157,7 @@ def update_forms(ctx, d1):
         # loop pairs extents with stoichiometry rows
         lp = loop_ev[0].stmt
         if okk and not (isinstance(lp.iter, ast.Call) and src(lp.iter.func) == 'zip'
-                        and [src(a) for a in lp.iter.args] == [ext, 'self._stoichiometry']):
+                        and sorted(src(a) for a in lp.iter.args) == sorted([ext, 'self._stoichiometry'])):
             okk, why = False, 'loop does not zip extents with self._stoichiometry'
         upd = [e for e in inside if e.kind == 'augname']
         if meth == '_reaction':
@@ -258,10 +262,24 @@ def rescale_rule(ctx, d2):
     lp = [e for e in p.events if e.kind == 'loop']
     upd = [e for e in p.events if e.kind == 'augname' and e.depth >= 1]
     okk = False
-    if len(lp) == 1 and len(upd) == 1 and src(lp[0].stmt.iter) == 'enumerate(self._reactant_index)':
-        i, idx = (t.id for t in lp[0].stmt.target.elts)
-        row = 'self._stoichiometry[%s]' % i
-        okk = upd[0].op == 'Div' and upd[0].extra == Form.atom(row) and upd[0].value == -Form.atom('%s[%s]' % (row, idx))
+    if len(lp) == 1 and len(upd) == 1 and isinstance(lp[0].stmt.target, ast.Tuple) and len(lp[0].stmt.target.elts) == 2 \
+            and all(isinstance(t, ast.Name) for t in lp[0].stmt.target.elts) and isinstance(lp[0].stmt.iter, ast.Call):
+        # the loop pairs every row with its own reactant position: enumerate(reactant_index) + S[i], enumerate(S) + reactant_index[i], or zip of the two
+        a, b = (t.id for t in lp[0].stmt.target.elts)
+        it = lp[0].stmt.iter
+        fn_, args_ = src(it.func), [src(x) for x in it.args]
+        S, R = 'self._stoichiometry', 'self._reactant_index'
+        row = idx = None
+        if fn_ == 'enumerate' and args_ == [R]:
+            row, idx = '%s[%s]' % (S, a), b
+        elif fn_ == 'enumerate' and args_ == [S]:
+            row, idx = b, '%s[%s]' % (R, a)
+        elif fn_ == 'zip' and args_ == [S, R]:
+            row, idx = a, b
+        elif fn_ == 'zip' and args_ == [R, S]:
+            row, idx = b, a
+        if row is not None:
+            okk = upd[0].op == 'Div' and (upd[0].extra == Form.atom(row) or upd[0].target == row) and upd[0].value == -Form.atom('%s[%s]' % (row, idx))
     if okk:
         d2.ok('ReactionSet._rescale', 'for (i,r): row_i /= -row_i[r]', f, lp[0].stmt)
     else:
